@@ -92,6 +92,10 @@ package verifier
 //@   ensures[exists] result == nil ==> okFromExists(abv.block, abv.momentumStore)
 //@   ensures[once] result == nil ==> okFromOnce(abv.block, abv.accountStore)
 //@   ensures[receiver] result == nil ==> okFromReceiver(abv.block, abv.momentumStore, abv.frontierStore)
+// ... and, as the property states it ("only by the account it was addressed to", over the whole life of a chain), WITHOUT the
+// activation height: fails on the unchanged tree for every chain below verifier.ReceiverMismatchEnforcementHeight - a recorded
+// known finding (the gate is a consensus rule of the main network's history; it cannot be removed by a patch)
+//@   ensures[receiver-whatever-the-height] result == nil && !isSend(abv.block) ==> blockObj(abv.momentumStore.blockByHash[abv.block.FromBlockHash]).ToAddress == abv.block.Address
 //@   modifies nothing
 
 // a contract receive is accepted only for the head of the contract's inbox
